@@ -46,6 +46,9 @@ def variants(sc, b):
         if sessprop.sampled(sc2, b, 6):
             out.append((mech + '-wss', sessprop.via_tls(sc2)))
             out.append((mech + '-proxy', sessprop.via_proxy(sc2)))
+        if sessprop.sampled(sc2, b, 3):
+            # a reset connection: shutdown() answers ENOTCONN, the descriptor must be closed all the same
+            out.append((mech + '-enotconn', dict(copy.deepcopy(sc2), shutdown_raises=True)))
     return out
 
 
